@@ -30,6 +30,7 @@ use crate::{
 
 type Obs = SharedObservable<OVal, AsyncLock>;
 type Sub = Subscriber<OVal, AsyncLock>;
+type UObs = eyeball::Observable<OVal, AsyncLock>;
 type RG = ObservableReadGuard<'static, OVal, AsyncLock>;
 type WG = ObservableWriteGuard<'static, OVal, AsyncLock>;
 
@@ -87,6 +88,10 @@ pub struct AsyncCase {
     /// build the observable with `Default::default()` (the model's initial value is then (0, 0))
     #[serde(default)]
     pub start_default: bool,
+    /// the owner is a unique `Observable<_, AsyncLock>` (no owner-side guards, clones or weak
+    /// references; its `&mut self` writers wait for the read guards subscribers hold)
+    #[serde(default)]
+    pub unique: bool,
 }
 
 enum Out {
@@ -134,6 +139,7 @@ struct World {
     prop: Prop,
     rep: CaseReport,
     owners: Vec<*mut Obs>,
+    uowner: Option<*mut UObs>,
     weaks: Vec<eyeball::WeakObservable<OVal, AsyncLock>>,
     subs: Vec<SubSlot>,
     held: Vec<Option<Held>>,
@@ -473,6 +479,9 @@ impl World {
         while let Some(p) = self.owners.pop() {
             drop(unsafe { Box::from_raw(p) });
         }
+        if let Some(p) = self.uowner.take() {
+            drop(unsafe { Box::from_raw(p) });
+        }
         self.closed = true;
         self.check_weaks_dead()?;
         if sub_guards > 0 {
@@ -525,8 +534,69 @@ impl World {
         Ok(())
     }
 
+    /// Operations on the unique owner; true if the operation was handled here.
+    fn step_unique(&mut self, op: AOp) -> R<bool> {
+        let Some(up) = self.uowner else { return Ok(false) };
+        // the owner is `&mut`-borrowed by a pending writer task: nothing else may touch it
+        let owner_busy = self.tasks.iter().any(|t| t.fut.is_some() && t.writer.is_some());
+        match op {
+            AOp::Write(wr) => {
+                if owner_busy || self.tasks.iter().filter(|t| t.fut.is_some()).count() >= 6 {
+                    return Ok(true);
+                }
+                if self.read_held() {
+                    self.writer_waited += 1;
+                }
+                let o: &'static mut UObs = unsafe { &mut *up };
+                let fut: Pin<Box<dyn Future<Output = Out>>> = match wr {
+                    Wr::Set(k, p) => Box::pin(async move { Out::Set(UObs::set_async(o, OVal::new(k, p)).await.m()) }),
+                    Wr::SetIfNotEq(k, p) => Box::pin(async move { Out::SetOpt(UObs::set_if_not_eq_async(o, OVal::new(k, p)).await.map(|x| x.m())) }),
+                    Wr::SetIfHashNotEq(k, p) => Box::pin(async move { Out::SetOpt(UObs::set_if_hash_not_eq_async(o, OVal::new(k, p)).await.map(|x| x.m())) }),
+                    Wr::Take => Box::pin(async move { Out::Set(UObs::take_async(o).await.m()) }),
+                    Wr::Update(d) => Box::pin(async move {
+                        UObs::update_async(o, |v| v.bump(d)).await;
+                        Out::Unit
+                    }),
+                    Wr::UpdateIf(d, n) => Box::pin(async move {
+                        UObs::update_if_async(o, |v| {
+                            v.bump(d);
+                            n
+                        })
+                        .await;
+                        Out::Unit
+                    }),
+                };
+                self.spawn(format!("{:?} (unique owner)", wr), Some(wr), None, fut);
+                Ok(true)
+            }
+            AOp::Get => {
+                if !owner_busy {
+                    let got = UObs::get_async(unsafe { &*up }).m();
+                    let v = self.value;
+                    self.check_t(got == v, &[Prop::C01], || format!("get_async on the unique owner returned {:?}, model value {:?}", got, v))?;
+                }
+                Ok(true)
+            }
+            AOp::Subscribe | AOp::SubscribeReset => {
+                if !owner_busy && self.subs.len() < 4 {
+                    let reset = matches!(op, AOp::SubscribeReset);
+                    let o: &UObs = unsafe { &*up };
+                    let sub = if reset { UObs::subscribe_reset_async(o) } else { UObs::subscribe_async(o) };
+                    let p = Box::into_raw(Box::new(sub));
+                    self.subs.push(SubSlot { sub: p, unseen: reset, stream_flag: None, polled_under_write: false, busy: false });
+                }
+                Ok(true)
+            }
+            _ => Ok(false),
+        }
+    }
+
     fn step(&mut self, op: AOp) -> R {
         let pick = |ix: u8, n: usize| if n == 0 { None } else { Some((ix as usize * n) >> 8) };
+        if self.step_unique(op)? {
+            self.run_ready()?;
+            return self.check_quiescent();
+        }
         match op {
             AOp::AcquireWrite => {
                 let Some(o) = self.owner() else { return Ok(()) };
@@ -804,11 +874,16 @@ pub fn run(case: &AsyncCase, prop: Prop) -> R<CaseReport> {
     let mut w = World {
         prop,
         rep: CaseReport::default(),
-        owners: vec![Box::into_raw(Box::new(if case.start_default {
-            <Obs as Default>::default()
+        owners: if case.unique {
+            vec![]
         } else {
-            SharedObservable::new_async(OVal::new(case.init.0, case.init.1))
-        }))],
+            vec![Box::into_raw(Box::new(if case.start_default { <Obs as Default>::default() } else { SharedObservable::new_async(OVal::new(case.init.0, case.init.1)) }))]
+        },
+        uowner: if case.unique {
+            Some(Box::into_raw(Box::new(if case.start_default { <UObs as Default>::default() } else { UObs::new_async(OVal::new(case.init.0, case.init.1)) })))
+        } else {
+            None
+        },
         weaks: vec![],
         subs: vec![],
         held: vec![],
@@ -847,6 +922,9 @@ pub fn run(case: &AsyncCase, prop: Prop) -> R<CaseReport> {
         while let Some(p) = w.owners.pop() {
             drop(unsafe { Box::from_raw(p) });
         }
+        if let Some(p) = w.uowner.take() {
+            drop(unsafe { Box::from_raw(p) });
+        }
         w.closed = true;
         w.check_weaks_dead()?;
         w.run_ready()?;
@@ -867,6 +945,9 @@ pub fn run(case: &AsyncCase, prop: Prop) -> R<CaseReport> {
     while let Some(p) = w.owners.pop() {
         drop(unsafe { Box::from_raw(p) });
     }
+    if let Some(p) = w.uowner.take() {
+        drop(unsafe { Box::from_raw(p) });
+    }
     res?;
     let snap = registry_snapshot();
     if !snap.errors.is_empty() || snap.live != 0 {
@@ -880,6 +961,9 @@ pub fn run(case: &AsyncCase, prop: Prop) -> R<CaseReport> {
     }
     if w.sub_polled_under_write_then_ready > 0 {
         rep.classes.push("subscriber_polled_under_write_guard_ready_after_release");
+    }
+    if w.writer_waited > 0 && case.unique {
+        rep.classes.push("unique_owner_writer_started_while_subscriber_guard_alive");
     }
     if w.writer_waited > 0 {
         rep.classes.push("writer_started_while_guard_alive");
@@ -925,7 +1009,13 @@ pub fn case() -> BoxedStrategy<AsyncCase> {
         1 => Just(AOp::Upgrade),
         1 => (0u8..8).prop_map(AOp::ReadBurst),
     ];
-    ((0u8..3, 0u8..3), proptest::collection::vec(op, 0..=30), prop_oneof![2 => Just(0u8), 1 => Just(1u8)], prop_oneof![3 => Just(false), 1 => Just(true)])
-        .prop_map(|(init, ops, finale, start_default)| AsyncCase { init, ops, finale, start_default })
+    (
+        (0u8..3, 0u8..3),
+        proptest::collection::vec(op, 0..=30),
+        prop_oneof![2 => Just(0u8), 1 => Just(1u8)],
+        prop_oneof![3 => Just(false), 1 => Just(true)],
+        prop_oneof![4 => Just(false), 1 => Just(true)],
+    )
+        .prop_map(|(init, ops, finale, start_default, unique)| AsyncCase { init, ops, finale, start_default, unique })
         .boxed()
 }
